@@ -28,6 +28,14 @@ type clause struct {
 	FromExternal bool // the clause was written in an `external` block of a client package (see contract.Mixed)
 }
 
+type grammarDecl struct {
+	Source, Generated string
+	Command           []string
+	Precedence        []string
+	File              string
+	Line              int
+}
+
 type specParam struct{ Name, Type string }
 
 type specDef struct {
@@ -94,6 +102,7 @@ type contractDB struct {
 	AtomicInit map[string]bool // functions that run before any goroutine is started (may access atomic fields plainly)
 	Owned      map[string]bool // types whose values belong to one goroutine at a time
 	Moves      map[string]bool // functions that hand their receiver to a new goroutine
+	Grammars   map[string]*grammarDecl // property -> the grammar assumptions its contracts rest on
 	Shared     map[string]bool   // types whose values are reachable from every goroutine of a run
 	SoleWriter map[string]string // TYPE.field -> the one function (a goroutine of its own) that writes it after start-up
 	Discipline map[string]bool // properties that include the access-discipline obligations (atomic fields, moved values)
@@ -103,10 +112,10 @@ type contractDB struct {
 	Files     []string
 }
 
-var clauseKw = regexp.MustCompile(`^(owned|shared|solewriter|discipline|atomicinit|moves|globalframe|defines|heapwf|reveal|scope|invariant|ghost|spec|macro|lemma|contract|external|requires|ensures|emits|callsite|decreases|loop|safety|props|inline|pure|modifies|noreturn|fuel|unreachable)\b`)
+var clauseKw = regexp.MustCompile(`^(grammar|precedence|owned|shared|solewriter|discipline|atomicinit|moves|globalframe|defines|heapwf|reveal|scope|invariant|ghost|spec|macro|lemma|contract|external|requires|ensures|emits|callsite|decreases|loop|safety|props|inline|pure|modifies|noreturn|fuel|unreachable)\b`)
 
 func newContractDB() *contractDB {
-	return &contractDB{Specs: map[string]*specDef{}, Contracts: map[string]*contract{}, Ghosts: map[string]string{}, Scopes: map[string][]string{}, Invariants: map[string][]*clause{}, RevealPost: map[string]bool{}, GlobalFrame: map[string]bool{}, AtomicInit: map[string]bool{}, Moves: map[string]bool{}, Owned: map[string]bool{}, Discipline: map[string]bool{}, Shared: map[string]bool{}, SoleWriter: map[string]string{}}
+	return &contractDB{Specs: map[string]*specDef{}, Contracts: map[string]*contract{}, Ghosts: map[string]string{}, Scopes: map[string][]string{}, Invariants: map[string][]*clause{}, RevealPost: map[string]bool{}, GlobalFrame: map[string]bool{}, AtomicInit: map[string]bool{}, Moves: map[string]bool{}, Owned: map[string]bool{}, Discipline: map[string]bool{}, Shared: map[string]bool{}, SoleWriter: map[string]string{}, Grammars: map[string]*grammarDecl{}}
 }
 
 // loadContractFile parses one file. pkgPath is the Go package the file belongs to ("" for external files,
@@ -235,6 +244,32 @@ func (db *contractDB) loadContractFile(path, pkgPath string) error {
 					db.AtomicInit[r] = true
 				}
 			}
+			cur = nil
+		case "grammar":
+			// grammar PROP SOURCE GENERATED COMMAND... : the generated parser is what COMMAND makes of SOURCE (paths relative to the repository)
+			f := strings.Fields(rest)
+			if len(f) < 4 {
+				return fail("grammar PROP SOURCE GENERATED COMMAND...")
+			}
+			g := db.Grammars[f[0]]
+			if g == nil {
+				g = &grammarDecl{}
+				db.Grammars[f[0]] = g
+			}
+			g.Source, g.Generated, g.Command, g.File, g.Line = f[1], f[2], f[3:], path, rc.line
+			cur = nil
+		case "precedence":
+			// precedence PROP %right A B C : the associativity/precedence declarations of the grammar, in order, are exactly these lines
+			f := strings.Fields(rest)
+			if len(f) < 2 {
+				return fail("precedence PROP %%assoc TOKENS...")
+			}
+			g := db.Grammars[f[0]]
+			if g == nil {
+				g = &grammarDecl{}
+				db.Grammars[f[0]] = g
+			}
+			g.Precedence = append(g.Precedence, strings.Join(f[1:], " "))
 			cur = nil
 		case "globalframe":
 			// globalframe PROP: the property's check includes one frame obligation per package-level variable
